@@ -261,11 +261,12 @@ class SInt:
     """symbolic Python int (mathematical integer).  `bits` = optional hull [lo, hi): the value is non-negative and only
     bits lo..hi-1 can be set (established by masking/shifting); lets `|` of disjoint fields be plain addition."""
 
-    __slots__ = ("e", "bits")
+    __slots__ = ("e", "bits", "bv")
 
     def __init__(self, e, bits=None):
         self.e = e
         self.bits = bits
+        self.bv = None  # optional: the bit-vector term this integer was derived from (float -> int conversions)
 
     # -- arithmetic
     def _b(self, o, f):
